@@ -226,9 +226,12 @@ def check_inv(eng, pc, post, root, expected, stored, label, untouched=None, tmp=
 
 
 # ------------------------------------------------------------------------------------ common arguments
+DIMS = z3.BitVec("dimensions", 64)
+DIMS_OK = z3.And(z3.UGE(DIMS, 1), z3.ULE(DIMS, 4096))
+
+
 def writer_value(index):
-    return Agg("Writer", None, {0: Opaque("Database"), 1: index, 2: z3.BitVec("dimensions", 64),
-                                3: Agg("Option", BV(0, 64), {})})
+    return Agg("Writer", None, {0: Opaque("Database"), 1: index, 2: DIMS, 3: Agg("Option", BV(0, 64), {})})
 
 
 def options_value(split_after):
@@ -260,6 +263,7 @@ def model_values(m, pre, extra=()):
         d[str(b)] = [i for i in range(U) if v >> i & 1]
     for t, z in pre.zero_vars:
         d[str(z)] = z3.is_true(m.eval(z, model_completion=True))
+    d["dimensions"] = m.eval(DIMS, model_completion=True).as_long()
     for name, term in extra:
         v = m.eval(term, model_completion=True)
         if z3.is_bv_value(v):
@@ -304,7 +308,7 @@ def run_insert(ctx, shapes, max_new, deadline, faults=False):
         new = z3.BitVec("new_items", U)
         split_after = z3.BitVec("split_after", 64)
         index = z3.BitVec("index", 16)
-        pc = list(pre.cond) + [new != BV(0, U), new & pre.items == BV(0, U), popcount(new, 32) <= BV(max_new, 32),
+        pc = list(pre.cond) + [DIMS_OK, new != BV(0, U), new & pre.items == BV(0, U), popcount(new, 32) <= BV(max_new, 32),
                                 z3.UGE(split_after, 1), z3.ULE(split_after, 3)]
         try:
             ids = node_ids_value(eng, sorted(pre.store.keys()), pc)
@@ -414,7 +418,7 @@ def replay_friendly(pre, split_after):
     """Extra constraints that let a step-level counterexample survive the rest of `build`: every
     split node of the pre-state holds more items than one bucket may (otherwise the deletion pass,
     which runs first, merges it)."""
-    cs = []
+    cs = [z3.UGE(DIMS, 2), z3.ULE(DIMS, 4)]
     for t, node in pre.store.items():
         if W.node_kind(node) == W.SPLIT:
             cs.append(z3.UGT(popcount(subtree_items(pre, W.tree_id(t)), 64), split_after))
@@ -446,14 +450,15 @@ def placement(pre, values):
     return pos
 
 
-def vec_of(i, signs):
-    return f"{signs[0] * (1 + i / 100.0):.2f},{signs[1] * (1 + i / 100.0):.2f}"
+def vec_of(i, signs, dim=2):
+    return f"{signs[0] * (1 + i / 100.0):.2f},{signs[1] * (1 + i / 100.0):.2f}" + ",0.0" * (dim - 2)
 
 
 def scenario(pre, values, adds=(), dels=(), split_after=2, n_trees=1, seeds=(0, 1, 2, 3, 4, 5), add_signs=None,
-             extra_steps=(), second_tree=False):
+             extra_steps=(), second_tree=False, check_capacity=False):
     pos = placement(pre, values)
-    lines = ["dim 2"]
+    dim = min(6, max(2, int(values.get("dimensions", 2))))
+    lines = [f"dim {dim}"]
     depth_of = {}
 
     def emit(nid, depth):
@@ -466,7 +471,7 @@ def scenario(pre, values, adds=(), dels=(), split_after=2, n_trees=1, seeds=(0, 
             return
         sp = node.f[0]
         zero = values.get(f"{pre.prefix}zero_normal{t}", False)
-        normal = "0.0,0.0" if zero else ("1.0,0.0" if depth == 0 else "0.0,1.0")
+        normal = ("0.0,0.0" if zero else ("1.0,0.0" if depth == 0 else "0.0,1.0")) + ",0.0" * (dim - 2)
 
         def ref(c):
             return ("item:" if W.mode_of(c).as_long() == W.MODE_ITEM else "tree:") + str(
@@ -476,7 +481,7 @@ def scenario(pre, values, adds=(), dels=(), split_after=2, n_trees=1, seeds=(0, 
         emit(sp.f[1], depth + 1)
     emit(pre.root, 0)
     for i, signs in sorted(pos.items()):
-        lines.append(f"raw_item {i} {vec_of(i, signs)}")
+        lines.append(f"raw_item {i} {vec_of(i, signs, dim)}")
     root_t = z3.simplify(pre.root.f[1]).as_long()
     if second_tree:
         lines.append("raw_bucket 10 " + ",".join(str(i) for i in sorted(pos)))
@@ -485,7 +490,7 @@ def scenario(pre, values, adds=(), dels=(), split_after=2, n_trees=1, seeds=(0, 
         lines.append(f"raw_meta roots={root_t} items=" + ",".join(str(i) for i in sorted(pos)))
     for i in adds:
         signs = (add_signs or {}).get(i, [1, 1])
-        lines.append(f"add {i} {vec_of(i, signs)}")
+        lines.append(f"add {i} {vec_of(i, signs, dim)}")
     for i in dels:
         lines.append(f"del {i}")
     lines += list(extra_steps)
@@ -495,6 +500,8 @@ def scenario(pre, values, adds=(), dels=(), split_after=2, n_trees=1, seeds=(0, 
         out += lines
         out.append(f"build n_trees={n_trees} split_after={split_after} seed={s}")
         out.append("expect_valid")
+        if check_capacity:
+            out.append(f"expect_buckets_within {split_after}")
     return "\n".join(out) + "\n"
 
 
@@ -578,9 +585,9 @@ def build_scenario(kind, v):
                 s = signs.setdefault(it, [])
                 s.append(1 if b else -1)
             add_signs = {it: (s + [1, 1])[:2] for it, s in signs.items()}
-            return scenario(pre, vals, adds=adds, split_after=sa, add_signs=add_signs)
+            return scenario(pre, vals, adds=adds, split_after=sa, add_signs=add_signs, check_capacity=True)
         if kind == "delete":
-            return scenario(pre, vals, dels=vals.get("set:to_delete", []), split_after=sa)
+            return scenario(pre, vals, dels=vals.get("set:to_delete", []), split_after=sa, check_capacity=True)
         if kind == "metric":
             import e2_metric
             return e2_metric.metric_scenario(v)
@@ -608,7 +615,7 @@ def run_delete(ctx, shapes, deadline, faults=False):
         dele = z3.BitVec("to_delete", U)
         split_after = z3.BitVec("split_after", 64)
         index = z3.BitVec("index", 16)
-        pc = list(pre.cond) + [z3.UGE(split_after, 1), z3.ULE(split_after, 3)]
+        pc = list(pre.cond) + [DIMS_OK, z3.UGE(split_after, 1), z3.ULE(split_after, 3)]
         remaining = pre.items & ~dele
         env = {"store": dict(pre.store), "frozen": dict(pre.store), "stored_items": remaining,
                "leafs": BV(0, U), "tmp": {"puts": [], "deleted": [], "remap": []}, "sides": []}
@@ -653,6 +660,17 @@ def run_delete(ctx, shapes, deadline, faults=False):
                     if ok:
                         v = {"clause": "the returned item set differs from the items left under the node", "model": m,
                              "cond": ret_items != remaining}
+                if v is None:
+                    # [C15] constant capacity: if no bucket exceeded split_after before, none does afterwards
+                    pre_ok = [z3.ULE(popcount(b, 64), split_after) for _, b in pre.bucket_vars]
+                    for t, node in post.items():
+                        if W.node_kind(node) == W.BUCKET:
+                            cond = z3.And(pre_ok + [z3.UGT(popcount(W.bucket_bits(eng, node), 64), split_after)])
+                            ok, m = eng.check(f.pc, cond)
+                            if ok:
+                                v = {"clause": f"deleting items leaves bucket {t} with more items than split_after although no bucket exceeded it before",
+                                     "model": m, "cond": cond}
+                                break
             except E.Unknown as e:
                 results["unknown"].append(f"{shape.name}: {e}")
                 continue
@@ -697,7 +715,7 @@ def run_delete_trees(ctx, shapes, deadline):
         gone = z3.BitVec("already_deleted_items", U)
         target = z3.BitVec("target_n_trees", 64)
         index = z3.BitVec("index", 16)
-        pc = list(pre.cond) + [z3.ULE(target, 3)]
+        pc = list(pre.cond) + [DIMS_OK, z3.ULE(target, 3)]
         store = dict(pre.store)
         store[10] = W.bucket(pre.items)
         root_t = z3.simplify(pre.root.f[1]).as_long()
@@ -799,7 +817,7 @@ def run_make_tree(ctx, max_items, deadline):
     index = z3.BitVec("index", 16)
     used_tids = [0, 2]
     for n in range(1, max_items + 1):
-        pc = [popcount(items, 8) == BV(n, 8), z3.UGE(split_after, 1), z3.ULE(split_after, 3)]
+        pc = [DIMS_OK, popcount(items, 8) == BV(n, 8), z3.UGE(split_after, 1), z3.ULE(split_after, 3)]
         ids = node_ids_value(eng, used_tids, pc)
         env = {"store": {}, "frozen": {}, "stored_items": items, "leafs": items,
                "tmp": {"puts": [], "deleted": [], "remap": []}, "sides": []}
